@@ -55,14 +55,20 @@ fn walk(body: &[u8]) -> Result<Vec<usize>, String> {
 
 /// encode one AVP alone; Ok(None) = refused (panicked)
 fn enc_avp(a: &SAvp, prefix: &[u8]) -> Result<Option<(Vec<u8>, usize)>, Failure> {
+    enc_avp_ctx(a, prefix, false)
+}
+
+/// `unwinding`: the call is made from a destructor while the thread unwinds (teardown paths encode from Drop)
+fn enc_avp_ctx(a: &SAvp, prefix: &[u8], unwinding: bool) -> Result<Option<(Vec<u8>, usize)>, Failure> {
     let ca = to_crate(a);
-    match guard(|| {
+    let f = || {
         let mut w = VecWriter::new();
         w.data = prefix.to_vec();
         ca.write(&mut w);
         let gl = ca.get_length();
         (w.data.split_off(prefix.len().min(w.data.len())), gl)
-    }) {
+    };
+    match if unwinding { crate::props::history::while_unwinding(f) } else { guard(f) } {
         Caught::Ok(x) => Ok(Some(x)),
         Caught::Panic(_) => Ok(None),
         Caught::Monitor(_) => Err(Failure { reason: "unexpected panic payload".into(), rendered: json!({}), sig: None }),
@@ -126,6 +132,26 @@ pub fn check_avp(a: &SAvp, prefix: &[u8], in_range: bool, cx: &mut Cx) -> Res {
             }
         }
     }
+    // the same call made from a destructor while the thread unwinds: whenever it returns the lengths are exact, oversize is refused
+    if !in_range || wl >= 1020 || crate::cx::hash64(&(a.attr, wl)) % 16 == 0 {
+        cx.stage(STAGE_ARMED);
+        let r2 = enc_avp_ctx(a, prefix, true)?;
+        cx.stage(STAGE_SETUP);
+        cx.class("AVP also encoded from a destructor while the thread unwinds");
+        match (r2, in_range) {
+            (None, true) => return fail("encoding an AVP within the size limits panicked when called from a destructor during unwinding", json!({"avp": format!("{:?}", abbreviate(a)), "wire_length": wl})),
+            (None, false) => {}
+            (Some((e, gl)), _) => {
+                if let Err(mut f) = avp_len_checks(a, &e, gl) {
+                    f.reason = format!("called from a destructor while the thread unwinds: {}", f.reason);
+                    return Err(f);
+                }
+                if e.len() > 1023 {
+                    return fail("called from a destructor while the thread unwinds: an AVP longer than 1023 octets was emitted", json!({"avp": format!("{:?}", abbreviate(a)), "emitted": e.len()}));
+                }
+            }
+        }
+    }
     if wl > 255 {
         cx.nontrivial(&(a.attr, a.hidden, wl, crate::cx::hash64(&format!("{:?}", a.body))));
         cx.class(match wl {
@@ -149,38 +175,66 @@ pub fn check_msg(m: &SMsg, prefix: &[u8], in_range: bool, family: &'static str, 
     };
     let total: usize = 12 + avps.iter().map(avp_wire_len).sum::<usize>();
     let render = || json!({"avps": avps.len(), "specified_total": total, "writer_already_holds_octets": prefix.len(), "first_avps": format!("{:?}", avps.iter().take(3).map(abbreviate).collect::<Vec<_>>())});
-    cx.stage(STAGE_ARMED);
-    let r = crate_encode_msg_after(m, prefix);
-    cx.stage(STAGE_SETUP);
-    match r {
-        Caught::Panic(p) => {
-            if in_range {
-                return fail(format!("encoding a message within the size limits panicked: {}", p.short()), render());
+    let also_unwinding = !in_range || total >= 65000 || crate::cx::hash64(&(total, avps.len())) % 16 == 0;
+    for ctx in 0..(1 + also_unwinding as usize) {
+        cx.stage(STAGE_ARMED);
+        let r = if ctx == 0 {
+            crate_encode_msg_after(m, prefix)
+        } else {
+            // the same call made from a destructor while the thread unwinds (teardown paths send StopCCN / CDN from Drop)
+            cx.class("message also encoded from a destructor while the thread unwinds");
+            match crate::props::history::while_unwinding(|| {
+                let cm = to_crate_msg(m);
+                let mut w = VecWriter::new();
+                w.data = prefix.to_vec();
+                cm.write(&mut w);
+                w.data.split_off(prefix.len().min(w.data.len()))
+            }) {
+                Caught::Ok(v) => Caught::Ok(v),
+                Caught::Panic(p) => Caught::Panic(p),
+                Caught::Monitor(x) => Caught::Monitor(x),
             }
-            cx.class("oversize message refused (panic)");
-        }
-        Caught::Monitor(_) => return fail("unexpected panic payload", render()),
-        Caught::Ok(e) => {
-            if e.len() < 12 {
-                return fail("fewer than 12 octets emitted for a control message", render());
-            }
-            let field = ((e[2] as usize) << 8) | e[3] as usize;
-            if field != e.len() {
-                return fail(format!("control Length field {} differs from the {} octets emitted", field, e.len()), render());
-            }
-            match walk(&e[12..]) {
-                Err(why) => return fail(format!("the AVPs do not tile the message body: {}", why), render()),
-                Ok(ext) => {
-                    if ext.len() != avps.len() {
-                        return fail(format!("{} AVP records emitted for {} AVPs", ext.len(), avps.len()), render());
+        };
+        cx.stage(STAGE_SETUP);
+        let judged = (|| -> Res {
+            match r {
+                Caught::Panic(p) => {
+                    if in_range {
+                        return fail(format!("encoding a message within the size limits panicked: {}", p.short()), render());
                     }
-                    for (a, x) in avps.iter().zip(ext.iter()) {
-                        if avp_wire_len(a) != *x {
-                            return fail(format!("an AVP's emitted extent {} differs from its own encoding's length {}", x, avp_wire_len(a)), render());
+                    cx.class("oversize message refused (panic)");
+                }
+                Caught::Monitor(_) => return fail("unexpected panic payload", render()),
+                Caught::Ok(e) => {
+                    if e.len() < 12 {
+                        return fail("fewer than 12 octets emitted for a control message", render());
+                    }
+                    let field = ((e[2] as usize) << 8) | e[3] as usize;
+                    if field != e.len() {
+                        return fail(format!("control Length field {} differs from the {} octets emitted", field, e.len()), render());
+                    }
+                    match walk(&e[12..]) {
+                        Err(why) => return fail(format!("the AVPs do not tile the message body: {}", why), render()),
+                        Ok(ext) => {
+                            if ext.len() != avps.len() {
+                                return fail(format!("{} AVP records emitted for {} AVPs", ext.len(), avps.len()), render());
+                            }
+                            for (a, x) in avps.iter().zip(ext.iter()) {
+                                if avp_wire_len(a) != *x {
+                                    return fail(format!("an AVP's emitted extent {} differs from its own encoding's length {}", x, avp_wire_len(a)), render());
+                                }
+                            }
                         }
                     }
                 }
+                }
+            Ok(())
+        })();
+        if let Err(mut f) = judged {
+            if ctx == 1 {
+                f.reason = format!("called from a destructor while the thread unwinds: {}", f.reason);
             }
+            return Err(f);
         }
     }
     let near = (65533..=65535).contains(&total);
